@@ -31,6 +31,13 @@ def find_sanitizers(ck):
         comp = calls_named(fn, "std::path::Path::components")
         if not comp:
             continue
+        okd, why = depth_counter_sanitizer(fn)
+        if okd is True:
+            out[fn.id] = True
+            continue
+        if okd is False:
+            ck.violate("C19-R1", "depth-counting sanitizer %s is right on every arm" % fn.name, why, fn.where())
+            continue
         # all(closure) / any(closure) over the components
         for bb, t in fn.calls():
             p = callee_of(t).get("path") or ""
@@ -70,6 +77,100 @@ def find_sanitizers(ck):
                     elif direct:
                         out[fn.id] = False
     return out
+
+
+def depth_counter_sanitizer(fn):
+    """Second recognised idiom: a loop over Path::components() that keeps the depth below the working directory.
+
+    Returns (True, None) when fn is such a loop and every arm is right, (False, reason) when it is such a loop with a flaw,
+    (None, None) when fn is not of this shape at all."""
+    loops = [il for il in pt.iterator_loops(fn) if "Components" in il["iter_ty"]]
+    sws = pt.discr_switches(fn, lambda e, rv: rv.get("adt") == COMPONENT)
+    if len(loops) != 1 or len(sws) != 1 or sws[0]["bb"] not in loops[0]["body"]:
+        return None, None
+    il, sw = loops[0], sws[0]
+    head = il["head"]
+
+    def step(kind):     # locals L with a definition L = L +/- 1 inside the loop
+        out = {}
+        for bb, idx, s in fn.stmts():
+            if bb not in il["body"] or s["k"] != "assign" or "p" in s["lhs"]:
+                continue
+            e = df.rvalue_expr(fn, s["rv"])
+            if isinstance(e, tuple) and e[0] == "field" and e[2] == 0 and isinstance(e[1], tuple) and e[1][0] == "bin":
+                e = ("bin", e[1][1].replace("WithOverflow", ""), e[1][2], e[1][3])
+            if isinstance(e, tuple) and e[0] == "bin" and e[1] == kind and e[3] == ("const", 1, "usize") and \
+                    isinstance(e[2], tuple) and e[2][0] == "local" and e[2][1] == s["lhs"]["l"]:
+                out.setdefault(s["lhs"]["l"], []).append(bb)
+        return out
+    incs, decs = step("Add"), step("Sub")
+    counters = set(incs) & set(decs)
+    if len(counters) != 1:
+        return None, None
+    c = counters.pop()
+
+    def region(variant):
+        edge = sw["edges"].get(variant) or sw["otherwise"]
+        return cfg.reachable(fn, [edge[1]], blocked={head}) - {head}, edge
+
+    def returns_false(blocks):
+        return any(s["k"] == "assign" and s["lhs"]["l"] == 0 and "p" not in s["lhs"] and s["rv"]["k"] == "use" and s["rv"]["op"].get("int") == 0
+                   for b in blocks for s in fn.blocks[b]["stmts"])
+
+    def continues(blocks):
+        return any(head in fn.succs(b) for b in blocks)
+    rn, _ = region("Normal")
+    if not any(b in rn for b in incs[c]):
+        return False, "the Normal arm does not count a directory level"
+    rc, _ = region("CurDir")
+    if any(b in rc for b in incs[c] + decs[c]):
+        return False, "a `.` component changes the depth: `./..` would be accepted although it leaves the working directory"
+    if returns_false(rc) and not continues(rc):
+        pass    # refusing `.` outright is stricter, fine
+    for v in ("RootDir", "Prefix"):
+        rv_, _ = region(v)
+        if continues(rv_) or not returns_false(rv_):
+            return False, "a %s component is not refused" % v
+    rp, _ = region("ParentDir")
+    dec_here = [b for b in decs[c] if b in rp]
+    if not dec_here or any(b in rp for b in incs[c]):
+        return False, "the ParentDir arm does not take one level off the depth"
+    guarded = False
+    for g in guards.find_bool_guards(fn, lambda e: isinstance(e, tuple) and e[0] == "bin" and e[1] in ("Eq", "Ne", "Gt", "Lt", "Le", "Ge")):
+        e = g["expr"]
+        a, b = e[2], e[3]
+        is_c = lambda x: isinstance(x, tuple) and x[0] == "local" and x[1] == c
+        zero = lambda x: x == ("const", 0, "usize")
+        one = lambda x: x == ("const", 1, "usize")
+        # edge on which depth >= 1 is known
+        pos_edge = None
+        if e[1] == "Eq" and ((is_c(a) and zero(b)) or (is_c(b) and zero(a))):
+            pos_edge, neg_edge = g["false_edge"], g["true_edge"]
+        elif e[1] == "Ne" and ((is_c(a) and zero(b)) or (is_c(b) and zero(a))):
+            pos_edge, neg_edge = g["true_edge"], g["false_edge"]
+        elif e[1] == "Gt" and is_c(a) and zero(b) or e[1] == "Lt" and zero(a) and is_c(b) or e[1] == "Ge" and is_c(a) and one(b):
+            pos_edge, neg_edge = g["true_edge"], g["false_edge"]
+        elif e[1] == "Lt" and is_c(a) and one(b) or e[1] == "Le" and is_c(a) and zero(b):
+            pos_edge, neg_edge = g["false_edge"], g["true_edge"]
+        if pos_edge is None or g["bb"] not in rp:
+            continue
+        neg_blocks = cfg.reachable(fn, [neg_edge[1]], blocked={head})
+        if all(b in cfg.dominated_by_edge(fn, pos_edge) for b in dec_here) and returns_false(neg_blocks) and head not in neg_blocks and \
+                not any(b in neg_blocks for b in dec_here):
+            guarded = True
+    if not guarded:
+        return False, "`..` is not refused when the depth is 0 (or the depth is decremented without that test)"
+    ne = il["none_edge"]
+    after = cfg.reachable(fn, [ne[1]]) if ne else set()
+    ok_true = any(s["k"] == "assign" and s["lhs"]["l"] == 0 and "p" not in s["lhs"] and s["rv"]["k"] == "use" and s["rv"]["op"].get("int") == 1
+                  for b in after for s in fn.blocks[b]["stmts"])
+    if not ok_true:
+        return False, "the name is not accepted after the last component"
+    # the counter starts at 0
+    init = [dd for dd in df.defs_of(fn).all(c) if dd[1] not in il["body"]]
+    if not (len(init) == 1 and init[0][0] == "stmt" and init[0][3]["rv"]["k"] == "use" and init[0][3]["rv"]["op"].get("int") == 0):
+        return False, "the depth does not start at 0"
+    return True, None
 
 
 def closure_verdict(cl):
